@@ -124,3 +124,18 @@ contract("Sequence.overwrite_relative_messages", params={"self": "ref:Sequence",
              ("building", f"not is_none(rel) and fresh(rel) and fresh(rel._messages) and rel._messages != messages and len(rel._messages) == i"),
              ("prefix", "forall(0, i, lambda j: rel._messages[j] == messages[j])")])},
          props=["C04"])
+
+# ------------------------------------------------------------------ copy (C16, C04)
+from .message import SAMEF
+RA_, RR_ = "result._abs._messages", "result._rel._messages"
+contract("Sequence.copy", params={"self": "ref:Sequence"}, result="ref:Sequence", allocates=True, cases=CASES,
+         requires=[PROTO()],
+         modifies={},
+         ensures=[("fresh", "not is_none(result) and fresh(result) and result != self"),
+                  ("proto", PROTO("result")),
+                  ("same_state", "result._abs_stale == self._abs_stale and result._rel_stale == self._rel_stale"),
+                  ("abs_copied", f"implies(not self._abs_stale, fresh(result._abs) and fresh({RA_}) and len({RA_}) == len({A}) and forall(0, len({A}), lambda j: fresh({RA_}[j]) and {SAMEF(RA_ + '[j]', A + '[j]')}))"),
+                  ("rel_copied", f"implies(not self._rel_stale, fresh(result._rel) and fresh({RR_}) and len({RR_}) == len({RL}) and forall(0, len({RL}), lambda j: fresh({RR_}[j]) and {SAMEF(RR_ + '[j]', RL + '[j]')}))"),
+                  ("source_untouched", "self._abs_stale == old(self._abs_stale) and self._rel_stale == old(self._rel_stale) and self._abs == old(self._abs) and self._rel == old(self._rel)"),
+                  ("source_proto", PROTO())],
+         props=["C16", "C04"])
